@@ -80,6 +80,14 @@ Fixpoint tbl_add (k : mkey) (t : list mkey) : list mkey :=
 Definition tbl_add_all (s : nat) (ms : list nat) (t : list mkey) : list mkey :=
   fold_left (fun t m => tbl_add (s, m) t) ms t.
 
+(* the statements that can fail, as the translator names them (Gen/GrpcWarmUpGen.v): createSharedDeps runs
+   [tree_shared_deps_steps] in this order and returns the error of each; prepareMethodList runs
+   [tree_method_list_prelude] before the loop and returns the error of each *)
+Inductive wstep := WsMethodList | WsClientPool.
+Inductive mstep := MsConnect | MsListServices.
+Definition tree_shared_deps_steps : list wstep := [WsMethodList; WsClientPool].
+Definition tree_method_list_prelude : list mstep := [MsConnect; MsListServices].
+
 Inductive wres (A : Type) := WOk (a : A) | WFail (c : wcause).
 Arguments WOk {A} a.
 Arguments WFail {A} c.
@@ -170,3 +178,11 @@ Definition tbl_size (t : list mkey) : nat := length t.
    [RsOk] with m methods lists methods 0..m-1 *)
 Definition gw_services (outs : list resolve) : list (nat * resolve) := combine (seq 0 (length outs)) outs.
 Definition gw_methods (m : nat) : resolve := RsOk (seq 0 m).
+
+(* ---------------------------------------------------------------------------------------- *)
+(* The pool's step: instancePool.warmUpGun turns a WarmUp error into "gun warm up failed: ..." and
+   instancePool.Run returns it at once; otherwise it goes on to runAsync (Model/Pool.v, [PvPre]). *)
+From PV Require Import Model.Pool.
+
+Definition gw_pre_outcome {A} (r : wres A) : pre_outcome :=
+  if wres_failed r then PreWarmFail else PreOk.
